@@ -8,3 +8,4 @@ for id in "$@"; do
 done
 git -C /repo checkout -- .
 git -C /repo status --short | head -3
+git -C /verif checkout -- evidence 2>/dev/null   # evidence written against a patched tree is not evidence
